@@ -55,16 +55,16 @@ func (p *childPipe) Read(b []byte) (int, error) {
 func (p *childPipe) Close() error { p.closed = true; return nil }
 
 var (
-	c14Out, c14Err   *childPipe
-	c14WaitClosed    bool
-	c14ChildDone     chan struct{}
-	c14ExitErr       error
-	c14OutData       [][]byte
-	c14ErrData       [][]byte
-	c14Started       bool
-	c14OutPiped      bool
-	c14ErrPiped      bool
-	c14Copiers       []chan struct{}
+	c14Out, c14Err *childPipe
+	c14WaitClosed  bool
+	c14ChildDone   chan struct{}
+	c14ExitErr     error
+	c14OutData     [][]byte
+	c14ErrData     [][]byte
+	c14Started     bool
+	c14OutPiped    bool
+	c14ErrPiped    bool
+	c14Copiers     []chan struct{}
 )
 
 // StdoutPipe / StderrPipe: the read ends of the child's output pipes.
